@@ -58,7 +58,7 @@ ASSUMPTIONS = [
 RULE = ("seeded generator (VERIF_SEED): keys {1,2,n-2,n-3, random, d/X/Y with 1-3 leading zero bytes}; message lengths {0,1,31..33,55,56,63..65,119..129,1000,4096,65535,65536}; "
         "IDs {nil, default, 1, 16, 8191, 8192, 8193 bytes and a seeded spread: 2..15, 17..64, powers of two +-1 up to 4097, 8188..8190, 65..8125}; message lengths additionally 4097 and two seeded values in 4098..65534; nonce streams {random, all-zero, all-ff, k=n-1, short}; for every valid base tuple the rejection catalogue: "
         "bit flips of message/ID/r/s/X/Y, r,s in {0,n,n+r,-r,2^256,...}, r+s=n, other keys, hash variants, DER variants {non-minimal, negative, long-form, indefinite, trailing, "
-        "wrong tags, SET, three integers, empty, truncations, byte changes}; the full DER catalogue on four eligible bases rotating with the seed (thorough: all); public keys off the curve must be rejected (predicate: false); consumer leg (op W): every P case through two of the three consumers, rotating (thorough: all three): gmtls verifyHandshakeSignature (SM2 and ECDSA-on-SM2 branches) and x509 CheckSignature; concurrent leg (op C): 2 / 8 / 32 goroutines released together, each signing 8 / 8 / 4 messages on its own yielding reader, every signature compared with the pair its own stream prescribes and all r required to be pairwise distinct. A case is non-trivial unless both message and id are empty; distinct = distinct case text")
+        "wrong tags, SET, three integers, empty, truncations, byte changes}; the full DER catalogue on four eligible bases rotating with the seed (thorough: all); public keys off the curve must be rejected (predicate: false); consumer leg (op W): every P case through two of the three consumers, rotating (thorough: all three): gmtls verifyHandshakeSignature (SM2 and ECDSA-on-SM2 branches) and x509 CheckSignature; history leg (op Y): Sign / Verify / Sm3Digest sequences in which one ID buffer, one message buffer and (mode 1) one key object are reused and overwritten in place between the calls, incl. evict-and-return patterns over two keys; each call judged against the standard for the bytes at call time; concurrent leg (op C): 2 / 8 / 32 goroutines released together, each signing 8 / 8 / 4 messages on its own yielding reader, every signature compared with the pair its own stream prescribes and all r required to be pairwise distinct. A case is non-trivial unless both message and id are empty; distinct = distinct case text")
 
 
 def nontrivial(f):
@@ -167,6 +167,8 @@ def predicate(f, io):
         return True, ""
     if op == "C":
         return _predicate_concurrent(f, io)
+    if op == "Y":
+        return _predicate_history(f, io)
     if op == "D":
         pub = (o.zint(f[2]), o.zint(f[3]))
         e = o.msg_e(pub, _uid(f[4]), o.unhex(f[5]))
@@ -219,4 +221,55 @@ def _predicate_concurrent(f, io):
                                "nonce stream (concurrent signers influence each other)" % (j, i))
         if int(used) != pos:
             return False, "goroutine %d: bytes consumed from its reader differ from 40 per attempt" % j
+    return True, ""
+
+
+def _predicate_history(f, io):
+    """history on reused buffers: every call must give the standard's result for the bytes that were in the buffers at call
+    time, whatever earlier calls saw in the same buffers / key objects"""
+    ds = [o.zint(f[3]), o.zint(f[4])]
+    pubs = [o.ec_mul(d, o.G) for d in ds]
+    steps = f[5].split(",")
+    if io[0] != "ok" or len(io) < 2:
+        return False, "history failed"
+    outs = io[1].split(",")
+    if len(outs) != len(steps):
+        return False, "history returned %d results for %d steps" % (len(outs), len(steps))
+    sigs = []
+    for i, (st, got) in enumerate(zip(steps, outs)):
+        kind, k, uid, msg, extra = st.split(".")
+        k = int(k)
+        uid, msg = _uid(uid), o.unhex(msg)
+        sig = None
+        if kind == "s":
+            want = _expected_sign(ds[k], pubs[k], uid, msg, o.unhex(extra))
+            if want == "err":
+                if got != "err":
+                    return False, "history step %d: signing succeeded where the standard cannot sign" % i
+            elif want is not None:
+                if got == "err":
+                    return False, "history step %d: signing failed" % i
+                r, s = (o.zint(x) for x in got.split("."))
+                sig = (r, s)
+                if (r, s) != want[:2]:
+                    return False, ("history step %d: (r,s) is not the GM/T 0003.2 pair for the ID and message in the buffers at call time "
+                                   "(an earlier call on the same buffers / key object leaks into this one)" % i)
+        elif kind == "v":
+            j = int(extra)
+            ref = sigs[j] if 0 <= j < len(sigs) else None
+            if ref is None:
+                want = False
+            else:
+                want = _expect_verify(pubs[k], o.msg_e(pubs[k], uid, msg), ref[0], ref[1])
+            if want is not None and (got == "1") != want:
+                return False, ("history step %d: Sm2Verify %s a signature against the standard for the ID and message in the buffers at "
+                               "call time (stale state from an earlier call)" % (i, "accepted" if got == "1" else "rejected"))
+        else:
+            e = o.msg_e(pubs[k], uid, msg)
+            if e is None:
+                if got != "err":
+                    return False, "history step %d: Sm3Digest accepted a too long ID" % i
+            elif got == "err" or o.os2ip(o.unhex(got)) != e:
+                return False, "history step %d: Sm3Digest is not SM3(ZA || M) for the bytes in the buffers at call time" % i
+        sigs.append(sig)
     return True, ""
